@@ -147,7 +147,15 @@ def expr_as_matrix(expr: Callable, *inputs, res_like: "MultiVector" = None):
     alg = x.algebra
     numerical = all(not r.issymbolic for r in rest)
     if numerical and any(len(r.shape) > 1 for r in rest):  # Only do this for multidimensional arrays
-        symbolic_rest = [alg.multivector(name=string.ascii_uppercase[i], keys=mv.keys()) for i, mv in enumerate(rest)]
+        # The stand-in symbols must not coincide with symbols of x (e.g. x = alg.vector(name='A')).
+        taken = {s.name for s in x.free_symbols}
+        names = []
+        for letter in string.ascii_uppercase:
+            name = letter
+            while any(t.startswith(name) for t in taken):
+                name += '_'
+            names.append(name)
+        symbolic_rest = [alg.multivector(name=names[i], keys=mv.keys()) for i, mv in enumerate(rest)]
         symbolic_inputs = [*symbolic_rest, x]
         A, y = expr_as_matrix(expr, *symbolic_inputs, res_like=res_like,)
         symbols2values = dict(itertools.chain(*(zip(smv.values(), mv.values()) for smv, mv in zip(symbolic_rest, rest))))
